@@ -15,6 +15,10 @@ place() {
     C12-g) cp $S/demo_run_test.go cmd/protoc-gen-fastmarshal/seed_c12_demo_test.go; echo ./cmd/protoc-gen-fastmarshal/;;
     C15-h) cp $S/demo_test.go lazyproto/seed_c15_demo_test.go; echo ./lazyproto/;;
     C16-h|C17-h) cp $S/demo_test.go cmd/protoc-gen-fastmarshal/seed_demo_test.go; mkdir -p SEED; echo ./cmd/protoc-gen-fastmarshal/;;
+    C05-i) cp $S/demo_test.go cmd/protoc-gen-fastmarshal/seed_demo_test.go; mkdir -p SEED/testdata; echo ./cmd/protoc-gen-fastmarshal/;;
+    C14-i) cp $S/demo_test.go lazyproto/seed_c14_demo_test.go; echo ./lazyproto/;;
+    C19-i) cp $S/demo_test.go ./seed_c19_demo_test.go; echo .;;
+    C20-i) cp $S/demo_test.go prototest/seed_c20_demo_test.go; echo ./prototest/;;
     C07-e) cp -r $S SEED; rm -f SEED/patch.diff SEED/meta.json; mv SEED/demo_test.go cmd/protoc-gen-fastmarshal/seed_c07_demo_test.go; echo ./cmd/protoc-gen-fastmarshal/;;
     *-c|*-d|*-e|*-f|*-g|*-h|*-i) cp -r $S SEED; rm -f SEED/patch.diff SEED/meta.json; echo SEEDDIR;;
     *) case "$pkgline" in
@@ -31,7 +35,9 @@ run() {
   if [ "$where" = SEEDDIR ]; then
     case "$id" in
       C06-b) go run ./SEED/demo 2>&1 | tail -3; return ${PIPESTATUS[0]};;
-      C09-h|C12-h) go run -tags "$TAGS" ./SEED/demo 2>&1 | tail -3; return ${PIPESTATUS[0]};;
+      C06-i) go test -count=1 -tags "$TAGS" ./SEED/demo/ 2>&1 | tail -3; return ${PIPESTATUS[0]};;
+      C09-i|C15-i) go test -race -count=1 -tags "$TAGS" ./SEED/ 2>&1 | tail -3; return ${PIPESTATUS[0]};;
+      C09-h|C12-h|C17-i) go run -tags "$TAGS" ./SEED/demo 2>&1 | tail -3; return ${PIPESTATUS[0]};;
       C07-d) go run -tags "$TAGS" ./SEED/demo 2>&1 | tail -3; return ${PIPESTATUS[0]};;
       C19-d) go test -count=1 -tags "$TAGS" ./SEED/demo/ 2>&1 | tail -3; return ${PIPESTATUS[0]};;
       *) go test -count=1 -tags "$TAGS" ./SEED/ 2>&1 | tail -3; return ${PIPESTATUS[0]};;
